@@ -316,7 +316,7 @@ impl<'a> Printer<'a> {
         let ctx = self.hint;
         let former = Self::former_v(t);
         let closed = Self::closed_v(t);
-        let mut op = ch % 14;
+        let mut op = ch % 21;
         if matches!(t, VTy::Data(_)) && (ch >> 20) % 2 == 0 {
             op = 8 + (ch >> 21) % 2;
         }
@@ -336,7 +336,7 @@ impl<'a> Printer<'a> {
         match op {
             | 0 | 12 => {
                 self.applied("value-of-another-type", false, former, ctx);
-                self.far_literal(t, ch / 14);
+                self.far_literal(t, ch / 21);
             }
             | 1 | 13 => {
                 self.applied("redundant-annotation", true, former, ctx);
@@ -348,7 +348,7 @@ impl<'a> Printer<'a> {
             }
             | 2 => {
                 self.applied("annotation-of-a-different-type", false, former, ctx);
-                let t2 = self.near_v(t, ch / 14);
+                let t2 = self.near_v(t, ch / 21);
                 self.p("(");
                 self.val_inner(v, t);
                 self.p(":");
@@ -364,12 +364,12 @@ impl<'a> Printer<'a> {
             | 4 => {
                 self.applied("thunk-of-a-value", false, former, ctx);
                 self.p("{");
-                self.far_or_same_literal(ch / 14);
+                self.far_or_same_literal(ch / 21);
                 self.p("}");
             }
             | 5 => {
                 self.applied("type-used-as-a-value", false, former, ctx);
-                self.p(["Int64", "Ret", "VType", "Thk"][(ch / 14) as usize % 4]);
+                self.p(["Int64", "Ret", "VType", "Thk"][(ch / 21) as usize % 4]);
             }
             | 6 => {
                 self.applied("sealed-alias-used-at-its-representation", false, former, ctx);
@@ -401,7 +401,7 @@ impl<'a> Printer<'a> {
             | 9 => {
                 let VTy::Data(d) = t else { unreachable!() };
                 self.applied("near-miss-copy-of-a-data-type", false, former, ctx);
-                self.data_copy_decl(*d, 1 + (ch / 14) % 4 + 5 * (ch / 56));
+                self.data_copy_decl(*d, 1 + (ch / 21) % 4 + 5 * (ch / 84));
                 self.p("(");
                 self.val_inner(v, t);
                 self.toks(&[":", "Zs", ")"]);
@@ -414,6 +414,80 @@ impl<'a> Printer<'a> {
                 self.vty(t, 5);
                 self.toks(&[")", "}"]);
             }
+            | 14 | 15 | 16 => {
+                // type operators: `let Zs (Za : VType) : VType = Za`, applied to the site's type, to another type, or sealed
+                let (name, accept): (&'static str, bool) = match op {
+                    | 14 => ("type-operator-applied-to-the-type", true),
+                    | 15 => ("type-operator-applied-to-another-type", false),
+                    | _ => ("sealed-type-operator", false),
+                };
+                self.applied(name, accept, former, ctx);
+                self.operator_decl(op == 16, &["(", "Za", ":", "VType", ")"], "VType", &["Za"]);
+                let arg = if op == 15 { self.near_v(t, ch / 21) } else { t.clone() };
+                self.p("(");
+                self.val_inner(v, t);
+                self.toks(&[":", "Zs"]);
+                self.vty(&arg, 0);
+                self.p(")");
+            }
+            | 17 | 18 => {
+                // a two-parameter operator over the head and the rest of a product
+                let VTy::Prod(items) = t else {
+                    self.applied("redundant-annotation", true, former, ctx);
+                    self.p("(");
+                    self.val_inner(v, t);
+                    self.p(":");
+                    self.vty(t, 5);
+                    self.p(")");
+                    return;
+                };
+                let head = items[0].clone();
+                let rest = prod(items[1..].to_vec());
+                let swapped = op == 18 && head != rest;
+                self.applied(if swapped { "type-operator-arguments-swapped" } else { "type-operator-over-a-product" }, !swapped, former, ctx);
+                self.operator_decl(false, &["(", "Za", ":", "VType", ")", "(", "Zb", ":", "VType", ")"], "VType", &["Za", "*", "Zb"]);
+                self.p("(");
+                self.val_inner(v, t);
+                self.toks(&[":", "Zs"]);
+                if swapped {
+                    self.vty(&rest, 0);
+                    self.vty(&head, 0);
+                } else {
+                    self.vty(&head, 0);
+                    self.vty(&rest, 0);
+                }
+                self.p(")");
+            }
+            | 19 => {
+                self.applied("higher-order-type-operator", true, former, ctx);
+                self.operator_decl(false, &["(", "Zf", ":", "VType", "->", "VType", ")", "(", "Za", ":", "VType", ")"], "VType", &["Zf", "Za"]);
+                let at = self.mutator.as_ref().unwrap().extra_decl.len();
+                let _ = at;
+                let mut extra = vec!["let".to_string(), "Zi".into(), "(".into(), "Zc".into(), ":".into(), "VType".into(), ")".into(), ":".into(), "VType".into(), "=".into(), "Zc".into(), "that".into(), "\n".into()];
+                extra.extend(std::mem::take(&mut self.mutator.as_mut().unwrap().extra_decl));
+                self.mutator.as_mut().unwrap().extra_decl = extra;
+                self.p("(");
+                self.val_inner(v, t);
+                self.toks(&[":", "Zs", "Zi"]);
+                self.vty(t, 0);
+                self.p(")");
+            }
+            | 20 => {
+                self.applied("ill-kinded-type-operator-application", false, former, ctx);
+                self.operator_decl(false, &["(", "Za", ":", "VType", ")"], "VType", &["Za"]);
+                self.p("(");
+                self.val_inner(v, t);
+                self.toks(&[":", "Zs"]);
+                match (ch / 21) % 3 {
+                    | 0 => self.toks(&["(", "Ret", "Unit", ")"]),
+                    | 1 => {}
+                    | _ => {
+                        self.vty(t, 0);
+                        self.vty(t, 0);
+                    }
+                }
+                self.p(")");
+            }
             | _ => {
                 self.applied("field-projection-from-an-unnamed-value", false, former, ctx);
                 self.toks(&["(", "("]);
@@ -423,6 +497,18 @@ impl<'a> Printer<'a> {
                 self.toks(&[")", "/", "zq", ")"]);
             }
         }
+    }
+
+    /// `let|def Zs <params> : <kind> = <body> that` as the extra declaration
+    fn operator_decl(&mut self, sealed: bool, params: &[&str], kind: &str, body: &[&str]) {
+        let saved = std::mem::take(&mut self.out);
+        self.toks(&[if sealed { "def" } else { "let" }, "Zs"]);
+        self.toks(params);
+        self.toks(&[":", kind, "="]);
+        self.toks(body);
+        self.toks(&["that", "\n"]);
+        let decl = std::mem::replace(&mut self.out, saved);
+        self.mutator.as_mut().unwrap().extra_decl = decl;
     }
 
     /// `let zh : Thk (A -> Ret Unit) = { fn (zx : A) => let zy : B = zx in ret () } in`
@@ -485,8 +571,8 @@ impl<'a> Printer<'a> {
         let ctx = self.hint;
         let former = Self::former_c(t);
         let closed = Self::closed_c(t);
-        let sub = ch / 41;
-        let mut op = ch % 41;
+        let sub = ch / 45;
+        let mut op = ch % 45;
         if matches!(t, CTy::Codata(_)) && (ch >> 20) % 2 == 0 {
             op = 22 + (ch >> 21) % 2;
         }
@@ -923,6 +1009,39 @@ impl<'a> Printer<'a> {
                     }
                 }
                 self.comp_inner(c, t);
+            }
+            | 41 | 42 => {
+                // computation-type operator: `let Zs (Za : CType) : CType = Za`
+                let accept = op == 41;
+                self.applied(if accept { "type-operator-applied-to-the-type" } else { "type-operator-applied-to-another-type" }, accept, former, ctx);
+                self.operator_decl(false, &["(", "Za", ":", "CType", ")"], "CType", &["Za"]);
+                let arg = if accept { t.clone() } else { self.near_c(t, sub) };
+                self.p("(");
+                self.comp_inner(c, t);
+                self.toks(&[":", "Zs"]);
+                self.cty(&arg, 0);
+                self.p(")");
+            }
+            | 43 | 44 => {
+                // `let Zs (Za : VType) : CType = Ret Za` at a returner
+                let CTy::Ret(a) = t else {
+                    self.applied("redundant-annotation", true, former, ctx);
+                    self.p("(");
+                    self.comp_inner(c, t);
+                    self.p(":");
+                    self.cty(t, 5);
+                    self.p(")");
+                    return;
+                };
+                let accept = op == 43;
+                self.applied(if accept { "returner-operator-applied-to-the-type" } else { "returner-operator-applied-to-another-type" }, accept, former, ctx);
+                self.operator_decl(false, &["(", "Za", ":", "VType", ")"], "CType", &["Ret", "Za"]);
+                let arg = if accept { (**a).clone() } else { self.near_v(a, sub) };
+                self.p("(");
+                self.comp_inner(c, t);
+                self.toks(&[":", "Zs"]);
+                self.vty(&arg, 0);
+                self.p(")");
             }
             | 27 => {
                 self.applied("thunk-in-computation-position", false, former, ctx);
